@@ -409,8 +409,36 @@ func (t *Dense) ResetMask(val ...bool) error {
 	if len(val) > 0 {
 		fillValue = val[0]
 	}
+	defer t.viewMaskGuard()()
 	memsetBools(t.mask, fillValue)
 	return nil
+}
+
+// viewMaskGuard is for the methods that write the mask over the whole window of t. The mask of a view
+// is a window of the viewed tensor's mask; when the view is non-contiguous, the entries between its
+// elements are not the view's to change. The returned function puts those back.
+func (t *Dense) viewMaskGuard() func() {
+	if t.viewOf == 0 || !t.o.IsNotContiguous() || len(t.mask) == 0 {
+		return func() {}
+	}
+	saved := append([]bool(nil), t.mask...)
+	return func() {
+		if len(t.mask) != len(saved) {
+			return
+		}
+		own := make([]bool, len(saved))
+		it := newFlatIterator(&t.AP)
+		for i, err := it.Next(); err == nil; i, err = it.Next() {
+			if i >= 0 && i < len(own) {
+				own[i] = true
+			}
+		}
+		for i := range saved {
+			if !own[i] {
+				t.mask[i] = saved[i]
+			}
+		}
+	}
 }
 
 // HardenMask forces the mask to hard. If mask is hard, then true mask values can not be unset
